@@ -108,3 +108,30 @@ fn kx_cmp_vec_string() {
     core::mem::forget(v);
     core::mem::forget(xm);
 }
+
+// @ob props=C14 tier=quick kind=Kbounded bound="one arbitrary byte (incl. non-UTF-8) against str / &str of 0..=1 ASCII bytes" fns=PartialOrd<str>_for_BytesMut,PartialOrd<str>_for_Bytes,PartialOrd<&str>,PartialEq<str>
+#[kani::proof]
+#[kani::unwind(6)]
+fn kx_cmp_non_utf8_against_str() {
+    // the crate's side may hold ANY bytes (not only valid UTF-8): comparisons with str are byte
+    // comparisons in both operand orders.  Kept tiny so that a change routing through UTF-8
+    // validation stays decidable (seed C14-4 made the 3-byte twin time out).
+    let x: u8 = kani::any();
+    let c: u8 = kani::any();
+    kani::assume(c < 0x80);
+    let n: usize = kani::any();
+    kani::assume(n <= 1);
+    let sb = [c];
+    let st: &str = unsafe { core::str::from_utf8_unchecked(&sb[..n]) };
+    let xs = [x];
+    let (sx, sy): (&[u8], &[u8]) = (&xs[..], &sb[..n]);
+    let (lt, gt, eq) = (sx.partial_cmp(sy), sy.partial_cmp(sx), sx == sy);
+    let xm = BytesMut::from(sx);
+    let xr: &'static [u8; 1] = unsafe { &*(&xs as *const [u8; 1]) };
+    let xb = Bytes::from_static(&xr[..]);
+    assert!(xm.partial_cmp(st) == lt && st.partial_cmp(&xm) == gt && (xm == *st) == eq && (*st == xm) == eq);
+    assert!(xb.partial_cmp(st) == lt && st.partial_cmp(&xb) == gt && (xb == *st) == eq && (*st == xb) == eq);
+    assert!(xm.partial_cmp(&st) == lt && (&st).partial_cmp(&xm) == gt && xb.partial_cmp(&st) == lt && (&st).partial_cmp(&xb) == gt);
+    kani::cover!(x >= 0x80, "not valid UTF-8 on the crate's side");
+    core::mem::forget(xm);
+}
